@@ -33,7 +33,7 @@ LINEAR = {"tile", "reshape", "squeeze", "transpose", "sum", "float", "to_memory_
 PRODUCT = {"dot", "matmul", "multiply", "outer", "kron", "khatrirao", "einsum", "inner", "tensordot", "ttv", "ttm", "mttkrp", "innerprod", "ttt",
            "scale"}
 ZERO = {"zeros", "zeros_like"}
-DEG0 = {"ones", "ones_like", "eye", "arange", "empty", "range", "len", "prod", "argsort", "argmax", "argmin", "setdiff1d", "shape", "isinstance",
+DEG0 = {"argsort", "argmax", "argmin", "ones", "ones_like", "eye", "arange", "empty", "range", "len", "prod", "argsort", "argmax", "argmin", "setdiff1d", "shape", "isinstance",
         "get_mttkrp_factors", "tt_dimscheck", "sign", "log", "identity"}
 
 
@@ -163,6 +163,12 @@ class DegreeOf:
                     continue
                 if isinstance(st, ast.Assign):
                     probe(st.value, e)
+                    sv = self.solver_outputs(st.value, e)
+                    if sv is not None and len(st.targets) == 1 and isinstance(st.targets[0], (ast.Tuple, ast.List)) \
+                            and len(st.targets[0].elts) == len(sv):
+                        for t, d in zip(st.targets[0].elts, sv):
+                            assign(t, d, e)
+                        continue
                     v = self.ev(st.value, e)
                     for t in st.targets:
                         assign(t, v, e)
@@ -222,6 +228,18 @@ class DegreeOf:
     @staticmethod
     def _as_load(t: ast.expr) -> ast.expr:
         return ast.parse(ast.unparse(t), mode="eval").body
+
+    def solver_outputs(self, e, env):
+        """(eigenvalues, eigenvectors) of eigh/eigsh/eig/eigs(A): the values scale like A, unit-norm vectors are scale-free (degree 0);
+        (u, s, vh) of svd(A) likewise."""
+        if not isinstance(e, ast.Call):
+            return None
+        base = (dotted(e.func) or "").split(".")[-1]
+        if base in ("eigh", "eigsh", "eig", "eigs") and e.args:
+            return (self.ev(e.args[0], env), Fraction(0))
+        if base == "svd" and e.args:
+            return (Fraction(0), self.ev(e.args[0], env), Fraction(0))
+        return None
 
     # -------------------------------------------------------------- expressions
     def ev(self, e, env: Dict[str, Deg]) -> Deg:
